@@ -212,18 +212,28 @@ example : setDefaults CV.Gen.defaultValues ["services", "web", "ports"] (.seq [.
 
 /-! ## 4. `Normalize`: outcome, and each default as specified -/
 
-/-- `Normalize` panics exactly when one of its unchecked type assertions fails (the three shape predicates),
-and otherwise returns the pure normal form -/
+/-- `Normalize` returns an error exactly when one of its (now checked) type assertions fails (the three shape
+predicates, in the order the three functions run), and otherwise returns the pure normal form -/
 theorem normalize_outcome (clean : String → String) (env : Env) (d : KVs) :
     (shapeNN d = true ∧ shapeServices d = true ∧ shapeNames d = true →
       normalize clean env d = .ok (normalizePure clean env d)) ∧
-    (shapeNN d = false → normalize clean env d = .panic "loader.normalizeNetworks") ∧
-    (shapeNN d = true → shapeServices d = false → normalize clean env d = .panic "loader.Normalize") ∧
+    (shapeNN d = false → normalize clean env d = .err "normalizeNetworks") ∧
+    (shapeNN d = true → shapeServices d = false → normalize clean env d = .err "Normalize") ∧
     (shapeNN d = true → shapeServices d = true → shapeNames d = false →
-      normalize clean env d = .panic "loader.setNameFromKey") := by
+      normalize clean env d = .err "setNameFromKey") := by
   unfold normalize
   refine ⟨fun ⟨h1, h2, h3⟩ => by simp [h1, h2, h3], fun h1 => by simp [h1], fun h1 h2 => by simp [h1, h2],
     fun h1 h2 h3 => by simp [h1, h2, h3]⟩
+
+/-- after the /repo repairs no input makes `Normalize` panic -/
+theorem normalize_never_panics (clean : String → String) (env : Env) (d : KVs) (site : String) :
+    normalize clean env d ≠ .panic site := by
+  unfold normalize
+  split
+  · simp
+  · split
+    · simp
+    · split <;> simp
 
 /-- a service without `network_mode` and without (or with empty) `networks` joins `default` -/
 theorem service_joins_default (s : KVs) (hm : lookup "network_mode" s = none)
@@ -540,12 +550,12 @@ theorem services_order_irrelevant (clean : String → String) (env : Env) (svcs 
 theorem resources_order_irrelevant (pj : Option Val) (top top' : KVs) (hp : top'.Perm top) :
     (mapAt (nameResource pj) top').Perm (mapAt (nameResource pj) top) := mapAt_perm _ hp
 
-/-- **`Normalize` does not depend on the order of the top-level entries**: same panic, or results that are
+/-- **`Normalize` does not depend on the order of the top-level entries**: same error, or results that are
 permutations of one another with identical values -/
 theorem normalize_order_irrelevant (clean : String → String) (env : Env) (d d' : KVs) (hn : KeysNodup d)
     (hp : d'.Perm d) :
     (∀ e, normalize clean env d = .ok e → ∃ e', normalize clean env d' = .ok e' ∧ e'.Perm e) ∧
-    (∀ site, normalize clean env d = .panic site → normalize clean env d' = .panic site) := by
+    (∀ cls, normalize clean env d = .err cls → normalize clean env d' = .err cls) := by
   obtain ⟨h1, h2, h3⟩ := shapes_perm hn hp
   unfold normalize
   rw [h1, h2, h3]
